@@ -139,6 +139,14 @@ SCHEMAS = {
         DONE:
         h Q1
     """,
+    "rotations with any numerator, coarse and fine denominators": """
+        set Q0 {a}
+        rot_x Q0 {n} {d}
+        set Q0 1
+        rot_z Q0 {n} {d}
+        set Q0 0
+        rot_y Q0 {n} {d}
+    """,
     "rotations pass through": """
         set Q0 {a}
         rot_x Q0 3 2
@@ -146,6 +154,41 @@ SCHEMAS = {
         rot_y Q0 1 1
     """,
 }
+
+# ------------------------------------------------------------------ small-scope enumeration of SDK-like program shapes
+# The SDK re-sets the qubit register in front of every gate operand; blocks are guarded by a classical register.
+OPS = {
+    "x0": ["set Q0 0", "x Q0"], "h0": ["set Q0 0", "h Q0"], "x1": ["set Q0 1", "x Q0"], "h1": ["set Q0 1", "h Q0"],
+    "cnot01": ["set Q0 0", "set Q1 1", "cnot Q0 Q1"], "cnot10": ["set Q0 1", "set Q1 0", "cnot Q0 Q1"],
+    "cnot12": ["set Q0 1", "set Q1 2", "cnot Q0 Q1"], "z2@Q2": ["set Q2 2", "z Q2"],
+    # thorough tier only
+    "y2": ["set Q0 2", "y Q0"], "cphase21": ["set Q0 2", "set Q1 1", "cphase Q0 Q1"], "meas0": ["set Q0 0", "meas Q0 M0"], "t1": ["set Q0 1", "t Q0"],
+}
+QUICK_OPS = ["x0", "h0", "x1", "h1", "cnot01", "cnot10", "cnot12", "z2@Q2"]
+
+
+def shape_text(template, ops):
+    """program text for a template over basic operations; R0 = {r} guards the block"""
+    L = ["set R0 {r}"]
+    if template == "a IF{b} c":
+        a, b, c = ops
+        L += OPS[a] + ["bez R0 SKIP"] + OPS[b] + ["SKIP:"] + OPS[c]
+    elif template == "a IF{b c} d":
+        a, b, c, d = ops
+        L += OPS[a] + ["bnz R0 SKIP"] + OPS[b] + OPS[c] + ["SKIP:"] + OPS[d]
+    elif template == "a LOOP2{b} c":
+        a, b, c = ops
+        L += OPS[a] + ["set R1 0", "LOOP:", "beq R1 2 EXIT"] + OPS[b] + ["add R1 R1 1", "jmp LOOP", "EXIT:"] + OPS[c]
+    elif template == "a IF{b}":                  # block at the very end: the target is just past the end
+        a, b = ops
+        L += OPS[a] + ["bez R0 END"] + OPS[b] + ["END:"]
+    elif template == "IF{a} ELSE{b} c":
+        a, b, c = ops
+        L += ["bez R0 ELSE"] + OPS[a] + ["jmp DONE", "ELSE:"] + OPS[b] + ["DONE:"] + OPS[c]
+    else:
+        raise ValueError(template)
+    return "\n".join(L)
+
 
 KNOWN = {
     "two-qubit gate on a qubit register written by load (stale value equals the other operand)": """
@@ -186,6 +229,13 @@ KNOWN = {
 def _text(body, **vals):
     lines = [l.strip() for l in body.strip().splitlines()]
     return "# NETQASM 0.0\n# APPID 0\n" + "\n".join(lines).format(**vals) + "\n"
+
+
+def _peek(ctx, ex, reg):
+    try:
+        return ctx.call(ex._get_register, 0, reg)
+    except Raised:
+        return None
 
 
 def _segments(events):
@@ -269,7 +319,12 @@ def build():
                     raise Skip() if not ctx.symbolic else __import__("pyvc.interp", fromlist=["PathAbort"]).PathAbort()
             if "{g}" in body:
                 vals["g"] = ctx.choice("g", ["h Q0", "z Q1", "k Q0", "s Q1", "t Q0", "cnot Q0 Q1", "cphase Q0 Q1", "x Q0"])
-            if "{n}" in body:
+            sym_n = None
+            if "{d}" in body:
+                vals["d"] = ctx.choice("d", [0, 3, 4, 5, 6, 9])
+                sym_n = ctx.int("n", 0, 255)
+                vals["n"] = 201          # placeholder numerator, replaced by the symbolic one after assembly
+            elif "{n}" in body:
                 vals["n"] = ctx.choice("n", [1, 2, 3])
             r = ctx.int("r", -3, 3) if "{r}" in body else None
             if r is not None:
@@ -285,6 +340,12 @@ def build():
                             from netqasm.lang.operand import Immediate
                             ins.imm = Immediate(r)
                             break
+            if sym_n is not None:
+                from netqasm.lang.operand import Immediate
+                for sub in (van, src):
+                    for ins in sub.instructions:
+                        if isinstance(ins, core.RotationInstruction) and ins.angle_num.value == 201:
+                            ins.angle_num = Immediate(sym_n)
             outs = [ctx.int(f"outcome{k}", 0, 1) for k in range(2)]
             tr = ctx.call(NVSubroutineTranspiler, src, debug)
             out = ctx.attempt(tr.transpile)
@@ -317,8 +378,8 @@ def build():
                         named.add(o)
             ok = True
             for reg in named:
-                if reg.name.name == "Q":
-                    continue            # qubit registers are working registers of both programs (their values are checked through the gates)
+                if reg.name.name == "Q" and ctx.truth(ctx.is_none(_peek(ctx, exv, reg))):
+                    continue            # never written by the source on this path
                 ok = ctx.and_(ok, ctx.eq(ctx.call(exv._get_register, 0, reg), ctx.call(exn._get_register, 0, reg)))
             ctx.check("classical-registers-named-by-the-source-are-equal", ok)
             ctx.check("arrays-equal", ctx.eq(exv._app_arrays[0]._arrays, exn._app_arrays[0]._arrays))
@@ -327,7 +388,18 @@ def build():
             ctx.check("same-measurements-in-the-same-order", len(mv) == len(mn) and all(ctx.truth(ctx.eq(a, b)) for a, b in zip(mv, mn)))
             ctx.check("controlled-rotations-are-electron-controlled-and-act-on-a-carbon",
                       all(ctx.truth(ctx.and_(ctx.eq(e[2], 0), ctx.not_(ctx.eq(e[3], 0)))) for e in exn.events if e[0] == "crot"))
-            if len(sv) == len(sn):
+            if sym_n is not None:
+                # symbolic angles: the exact arithmetic needs concrete ones, so the rotations are compared one by one:
+                # same axis, same qubit, and n/2^d == n'/2^d' modulo a full turn (2 in units of pi)
+                a, b = [e for e in exv.events if e[0] == "rot"], [e for e in exn.events if e[0] == "rot"]
+                ok = len(a) == len(b)
+                for ea, eb in zip(a, b):
+                    ok = ok and ea[1] == eb[1] and ctx.truth(ctx.eq(ea[2], eb[2])) and isinstance(ea[4], int) and isinstance(eb[4], int)
+                    if ok:
+                        m = 2 ** (ea[4] + eb[4] + 1)
+                        ok = ctx.truth(ctx.eq(ctx.mod(ctx.mul(ea[3], 2 ** eb[4]), m), ctx.mod(ctx.mul(eb[3], 2 ** ea[4]), m)))
+                ctx.check("every-rotation-keeps-axis-qubit-and-angle (modulo a full turn)", ok)
+            elif len(sv) == len(sn):
                 same = True
                 for a, b in zip(sv, sn):
                     same = same and cyc.eq_up_to_phase(_unitary(ctx, b, "nv"), _unitary(ctx, a, "vanilla"))
@@ -338,6 +410,25 @@ def build():
         R.add(f"schema[{name}]", kind="exact", samples=12, max_paths=400)(mk(name, body))
     for name, body in KNOWN.items():
         R.add(f"schema[{name}]", kind="exact", samples=4, max_paths=100)(mk(name, body, known=True))
+
+    # small-scope enumeration: every program of each template over the alphabet, data symbolic
+    import itertools
+    def mk_shapes(template, first, alphabet, arity):
+        def f(ctx):
+            rest = [ctx.choice(f"op{k}", alphabet) for k in range(1, arity)]
+            body = shape_text(template, [first] + rest)
+            return mk(f"{template} / {first}", body)(ctx)
+        return f
+    for template, arity in (("a IF{b} c", 3), ("a LOOP2{b} c", 3), ("a IF{b}", 2), ("IF{a} ELSE{b} c", 3)):
+        for first in OPS:
+            quick = first in QUICK_OPS
+            R.add(f"shapes[{template}][a={first}][quick alphabet]", kind="exact", samples=4, max_paths=4000, thorough_only=not quick,
+                  note=f"all programs of template '{template}' with a={first} and the other operations from the {len(QUICK_OPS)}-operation alphabet")(
+                mk_shapes(template, first, QUICK_OPS, arity))
+            R.add(f"shapes[{template}][a={first}][full alphabet]", kind="exact", samples=4, max_paths=40000, thorough_only=True,
+                  note=f"... from the full {len(OPS)}-operation alphabet")(mk_shapes(template, first, list(OPS), arity))
+    for first in QUICK_OPS:
+        R.add(f"shapes[a IF{{b c}} d][a={first}]", kind="exact", samples=4, max_paths=40000, thorough_only=True)(mk_shapes("a IF{b c} d", first, QUICK_OPS, 4))
 
     def canary(ctx):
         text = _text("set Q0 0\nset Q1 1\ncnot Q0 Q1\n")
